@@ -184,7 +184,11 @@ def run_variant(job, d, tag, tier, cache_dir, versions, vname, ufmode, vdefs, re
     if cf and os.path.exists(cf):
         c = json.load(open(cf))
         res['seconds']['goto-cc'] += c['seconds_solver']['goto-cc']; res['seconds']['cbmc'] += c['seconds_solver']['cbmc']
-        return True, '', c['obligations']
+        obs = []
+        for o in c['obligations']:      # classification is recomputed (it is not part of the solver's answer)
+            kind, cid, tags = classify(o['name'], o['desc'], job)
+            obs.append(dict(o, kind=kind, clause=cid, tags=tags))
+        return True, '', obs
     res['cache_hit'] = False
     rc, out, err, secs = sh(cc, timeout=300)
     t_cc = round(secs, 2)
